@@ -41,6 +41,7 @@ func runC16(c *Ctx) {
 	r.Rule("R16-options", "a hash size given on the command line reaches the engine only inside a range for which the table allocation cannot panic (lower and constant upper bound at the call, or a clamp in the setter)", 2)
 	c.guard("R16-options", func() { c16Options(c, "R16-options") })
 	r.Rule("R16-timer", "a timer whose callback halts the engine (not a search handle of its own) is kept and stopped when the search it was armed for ends or is superseded", 1)
+	r.Rule("R16-flush", "what the driver emitted is written out before the process exits: in every function that creates a driver, the output channel is consumed by a call the function waits for, not by a goroutine it never joins", 4)
 	d := newDriverModel(c, "R16-exit-halts")
 	if d == nil {
 		return
@@ -48,6 +49,7 @@ func runC16(c *Ctx) {
 	c.guard("R16-exit-halts", func() { c16Exits(c, d) })
 	c.guard("R16-supersede", func() { c16Supersede(c, d) })
 	c.guard("R16-timer", func() { c16Timer(c, d) })
+	c.guard("R16-flush", func() { c16Flush(c) })
 	c.guard("R16-close-owner", func() { c16Channels(c, d) })
 	c.guard("R16-locks", func() { c16Locks(c, d) })
 	c.guard("R16-nojoin", func() { c16Random(c) })
